@@ -20,7 +20,9 @@ RULE = ('expressions are generated as JSON ASTs (vp/gen/c08_gen.py), rendered to
         'sequences S, T of integers / mixed numerics / strings / untypedAtomic / element nodes; position and length '
         'arguments from integers, .5 fractions, <= 0, beyond length, INF, -INF, NaN, untypedAtomic, nodes). nested: '
         'typed recursive programs (comma, to, filter with position()/last(), for/some/every with 1-3 dependent '
-        'variables, let, !, if, the function list) of nesting depth <= 3. equiv: the named F&O equivalences, both '
+        'variables, let, !, if, the function list) of nesting depth <= 3, half of them with variable names drawn from '
+        'a two-name pool so that nested binders shadow outer variables that are read again afterwards. grid: complete '
+        'enumeration of the position/length boundary grid (see exhaustive_note). equiv: the named F&O equivalences, both '
         'sides evaluated by elementpath. non-trivial = expression with a boundary argument (non-integer, <= 0, '
         'huge, non-finite, untyped or node position) or >= 2 nested constructs; distinct by parser version + '
         'rendered expression.')
@@ -50,6 +52,9 @@ FLOORS = {
     'nested:binding-construct': (0.20, 'nested:case'),
     'nested:focus-construct': (0.20, 'nested:case'),
     'equiv:both-values': (0.60, 'equiv:case'),
+    'nested:shadowing': (0.10, 'nested:case'),
+    'direct:shadowing': (0.10, 'direct:case'),
+    'grid:value-verdict': (0.80, 'grid:case'),
 }
 
 _DOC = None
@@ -244,6 +249,24 @@ def has_boundary(ast) -> bool:
 
 def construct_name(n):
     return 'fn:' + n[1] if n[0] == 'call' else n[0]
+
+
+def has_shadowing(n, bound=frozenset()):
+    """a for/let/some/every clause binds a name that is already bound where the binder stands"""
+    if not (isinstance(n, list) and n and isinstance(n[0], str)):
+        return False
+    t = n[0]
+    if t in ('str', 'dec', 'dbl', 'flt', 'unt', 'nodes', 'var', 'int', 'bool', 'empty', 'ctx', 'pos', 'last'):
+        return False
+    if t in ('for', 'let', 'some', 'every'):
+        b = set(bound)
+        for nm, e in n[1]:
+            if nm in b or has_shadowing(e, frozenset(b)):
+                return True
+            b.add(nm)
+        return has_shadowing(n[2], frozenset(b))
+    kids = n[2] if t == 'call' else n[1:]
+    return any(has_shadowing(c, bound) for c in kids if isinstance(c, list))
 
 
 _SIG_ARGS = {'fn:remove': (1,), 'fn:insert-before': (1,), 'fn:subsequence': (1, 2), 'fn:index-of': (0, 1),
@@ -504,6 +527,8 @@ def judge_expr(case, rec: Recorder | None = None, check='nested') -> list[Disc]:
             cls.append(f'{check}:focus-construct')
         if 'nodes' in tags:
             cls.append(f'{check}:nodes')
+        if has_shadowing(ast):
+            cls.append(f'{check}:shadowing')
         if check == 'direct':
             cls.append('direct:' + construct_name(ast))
         rec.case([v, interp.render(ast)], nontrivial=(b or dp >= 2) and info['status'] != 'skipped',
@@ -679,6 +704,70 @@ def judge_equiv(case, rec: Recorder | None = None) -> list[Disc]:
 
 
 # --------------------------------------------------------------------------
+# grid sub-check: COMPLETE enumeration of the boundary grid of position / length arguments
+# --------------------------------------------------------------------------
+_BIG = '1' + '0' * 300          # 1e300 written without exponent (the renderer appends e0 for doubles)
+EXHAUSTIVE_NOTE = ('sub-check grid enumerates completely: fn:subsequence#3 over {-INF,-1e300,-1.5,-0.5,0,0.5,1,1.5,2.5,'
+                   'size,size+0.5,1e300,INF,NaN}^2 with every value as xs:double and the finite ones as xs:decimal / '
+                   'xs:integer, for sequences of 0,1,3,5 items, each as the function call AND as the filter '
+                   'S[round(a) le position() and position() lt round(a)+round(b)]; fn:subsequence#2, E[n], '
+                   'E[position() eq n] over the same set; fn:insert-before / fn:remove over the integer grid plus '
+                   'untypedAtomic and (error) decimal/double positions')
+
+
+def _grid_values(size):
+    """[(AST, is_integer_typed)] of the boundary set, every value in all its numeric types"""
+    fin = ['-' + _BIG, '-1.5', '-0.5', '0', '0.5', '1', '1.5', '2.5', str(size), str(size) + '.5', _BIG]
+    out = []
+    for s in fin:
+        out.append(['dbl', s if '.' in s else s + '.0'])
+        out.append(['dec', s if '.' in s else s + '.0'])
+        if '.' not in s:
+            out.append(['int', int(s)])
+    out += [['dbl', 'INF'], ['dbl', '-INF'], ['dbl', 'NaN'], ['flt', 'INF'], ['flt', 'NaN']]
+    return out
+
+
+def _int_grid(size):
+    ints = [-10 ** 300, -2 ** 63, -1, 0, 1, 2, size - 1, size, size + 1, size + 2, 2 ** 63, 10 ** 300]
+    out = [['int', i] for i in ints]
+    out += [['unt', str(i)] for i in (-1, 0, 1, size, size + 1)] + [['unt', ' 2 ']]
+    out += [['dec', '1.0'], ['dec', '1.5'], ['dbl', '1.0'], ['dbl', 'INF'], ['dbl', 'NaN'], ['empty'],
+            ['seq', ['int', 1], ['int', 2]]]                       # type errors demanded at the root
+    return out
+
+
+def grid_cases():
+    """the complete, deterministic list of {'v', 'ast'} cases of the grid"""
+    c = lambda name, *args: ['call', name, list(args)]     # noqa: E731
+    cases = []
+    for size in (0, 1, 3, 5):
+        S = ['empty'] if size == 0 else ['int', 11] if size == 1 else ['seq', *[['int', 10 + i] for i in range(1, size + 1)]]
+        vals = _grid_values(size)
+        for a in vals:
+            ra = c('round', a)
+            for v in ('31', '20'):
+                cases.append({'v': v, 'ast': c('subsequence', S, a)})
+                cases.append({'v': v, 'ast': ['filter', S, ['vcmp', 'le', ra, ['pos']]]})
+                cases.append({'v': v, 'ast': ['filter', S, a]})
+                cases.append({'v': v, 'ast': ['filter', S, ['vcmp', 'eq', ['pos'], a]]})
+            for b in vals:
+                for v in (('31', '20') if a[0] == 'dbl' and b[0] == 'dbl' else ('31',)):
+                    cases.append({'v': v, 'ast': c('subsequence', S, a, b)})
+                    cases.append({'v': v, 'ast': ['filter', S, ['and', ['vcmp', 'le', ra, ['pos']],
+                                                                ['vcmp', 'lt', ['pos'], ['arith', '+', ra, c('round', b)]]]]})
+        T = ['seq', ['int', 91], ['int', 92]]
+        for i in _int_grid(size):
+            for v in ('31', '20'):
+                cases.append({'v': v, 'ast': c('remove', S, i)})
+                cases.append({'v': v, 'ast': c('insert-before', S, i, T)})
+                cases.append({'v': v, 'ast': c('insert-before', S, i, ['empty'])})
+                if i[0] == 'int':
+                    cases.append({'v': v, 'ast': ['filter', S, ['vcmp', 'ne', ['pos'], i]]})
+    return cases
+
+
+# --------------------------------------------------------------------------
 # module interface
 # --------------------------------------------------------------------------
 def selftest():
@@ -704,14 +793,21 @@ def jobs(tier, seed):
     for name, shards, n in plan:
         for i in range(shards):
             out.append({'check': name, 'shard': i, 'n': n, 'seed': derive_seed(seed, 'C08', name, i)})
+    for i in range(_GRID_PARTS):          # complete enumeration, identical in both tiers and for every seed
+        out.append({'check': 'grid', 'part': i, 'of': _GRID_PARTS})
     return out
 
 
 _BATCH = {'direct': c08_gen.direct_batch(), 'nested': nested_batch()}
+_GRID_PARTS = 4
 
 
 def run_job(job, rec: Recorder):
     chk = job['check']
+    if chk == 'grid':
+        for one in grid_cases()[job['part']::job['of']]:
+            rec.discs_of('grid', one, judge_expr(one, rec, 'grid'))
+        return
     if chk == 'equiv':
         hyp_collect(c08_gen.equiv_case(), lambda case: rec.discs_of('equiv', case, judge_equiv(case, rec)),
                     job['n'], job['seed'], rec)
@@ -726,6 +822,13 @@ def run_job(job, rec: Recorder):
 
 def shrink_job(job, bucket, budget):
     chk = job['check']
+    if chk == 'grid':           # nothing to shrink: report the smallest failing grid case
+        best = None
+        for one in grid_cases()[job['part']::job['of']]:
+            for d in judge_expr(one, None, 'grid'):
+                if d.bucket == bucket and (best is None or len(canon(one)) < len(canon(best[0]))):
+                    best = (one, d)
+        return best
     if chk == 'equiv':
         return hyp_shrink(c08_gen.equiv_case(), judge_equiv, bucket, job['n'], job['seed'], budget)
     got = hyp_shrink(_BATCH[chk], lambda case: judge(chk, case), bucket, job['n'], job['seed'], budget)
